@@ -250,6 +250,10 @@ def run_tlc(module: str, cfg: str, workdir: str, env: Optional[Dict[str, str]] =
     ms = _RE_STATES.findall(out)
     if ms:
         r.generated, r.distinct = int(ms[-1][0]), int(ms[-1][1])
+    if simulate and not ms:
+        m2 = re.findall(r"The number of states generated: (\d+)", out)
+        if m2:
+            r.generated = r.distinct = int(m2[-1])
     md = _RE_DEPTH.findall(out)
     if md:
         r.depth = int(md[-1])
